@@ -172,6 +172,15 @@ pub fn make_diff<'a, T: DiffableStr + ?Sized>(
 ) -> Option<TextDiff<'a, 'a, 'a, T>> {
     let mut cfg = TextDiff::configure();
     cfg.algorithm(alg);
+    // no deadline is configured: a clock that answers "exceeded" to every check must be unobservable
+    struct Unclock;
+    impl Drop for Unclock {
+        fn drop(&mut self) {
+            rec::remove_clock();
+        }
+    }
+    rec::install_hostile_clock();
+    let _unclock = Unclock;
     Some(match kind {
         "lines" => cfg.diff_lines(old, new),
         "words" => cfg.diff_words(old, new),
@@ -284,6 +293,11 @@ pub fn text_pairs(rng: &mut Rng, thorough: bool, with_invalid: bool) -> Vec<(Vec
     for _ in 0..(if thorough { 600 } else { 60 }) {
         let (a, b) = textgen::runny_pair(rng);
         v.push((a.into_bytes(), b.into_bytes()));
+    }
+    if with_invalid {
+        for _ in 0..(if thorough { 200 } else { 20 }) {
+            v.push(textgen::runny_bytes_pair(rng));
+        }
     }
     v
 }
